@@ -205,9 +205,20 @@ func (e *FuncEnc) havocAll(st *state) {
 	for _, k := range sortedKeys(pk) {
 		olds[k] = e.heapName(st, k, e.heapSorts[k])
 	}
+	var fsName string
+	if e.W != nil && e.W.FSStable {
+		if n, ok := st.heaps[fsKey]; ok {
+			fsName = n
+		} else if _, used := e.heapSorts[fsKey]; used {
+			fsName = e.heapName(st, fsKey, fsSort)
+		}
+	}
 	e.epochs++
 	st.epoch = e.epochs
 	st.heaps = map[string]string{}
+	if fsName != "" {
+		st.heaps[fsKey] = fsName
+	}
 	for _, k := range sortedKeys(pk) {
 		nn := e.heapName(st, k, e.heapSorts[k])
 		e.preservePrivate(k, olds[k], nn)
@@ -529,6 +540,10 @@ func (e *FuncEnc) Encode() {
 
 	st := &state{heaps: map[string]string{}, trace: "tr0"}
 	e.D.Const("tr0", "Trace")
+	if e.W != nil && len(e.W.FSWriters) > 0 {
+		e.useFS()
+		st.heaps[fsKey] = e.heapName(st, fsKey, fsSort)
+	}
 	// parameters and free variables
 	for _, p := range fn.Params {
 		s := e.newSym("p_"+mangle(p.Name()), e.D.SortOf(p.Type()))
